@@ -220,14 +220,22 @@ func unionsOf(f *ast.File) map[string]*unionInfo {
 
 // ---------- documents ----------
 
-var c09Objects = map[string]J{
-	"Cat":       {"type": "object", "required": []interface{}{"kind"}, "properties": J{"kind": J{"type": "string"}, "name": J{"type": "string"}}},
-	"Dog":       {"type": "object", "required": []interface{}{"kind"}, "properties": J{"kind": J{"type": "string"}, "bark": J{"type": "boolean"}}},
-	"guard-dog": {"type": "object", "required": []interface{}{"kind"}, "properties": J{"kind": J{"type": "string"}, "level": J{"type": "integer"}}},
-	"bird_2":    {"type": "object", "required": []interface{}{"kind"}, "properties": J{"kind": J{"type": "string"}, "wings": J{"type": "integer"}, "name": J{"type": "string"}}},
-	// a name that ends in another member's name: reference matching by suffix or substring confuses the two
-	"BigCat": {"type": "object", "required": []interface{}{"kind"}, "properties": J{"kind": J{"type": "string"}, "size": J{"type": "integer"}}},
+// c09DP is the discriminator property name of the document being built or examined: "kind", or a name whose Go field
+// name differs from it in more than the case of letters (pet_type -> PetType)
+var c09DP = "kind"
+
+func c09Objects() map[string]J {
+	dp := c09DP
+	return map[string]J{
+		"Cat":       {"type": "object", "required": []interface{}{dp}, "properties": J{dp: J{"type": "string"}, "name": J{"type": "string"}}},
+		"Dog":       {"type": "object", "required": []interface{}{dp}, "properties": J{dp: J{"type": "string"}, "bark": J{"type": "boolean"}}},
+		"guard-dog": {"type": "object", "required": []interface{}{dp}, "properties": J{dp: J{"type": "string"}, "level": J{"type": "integer"}}},
+		"bird_2":    {"type": "object", "required": []interface{}{dp}, "properties": J{dp: J{"type": "string"}, "wings": J{"type": "integer"}, "name": J{"type": "string"}}},
+		// a name that ends in another member's name: reference matching by suffix or substring confuses the two
+		"BigCat": {"type": "object", "required": []interface{}{dp}, "properties": J{dp: J{"type": "string"}, "size": J{"type": "integer"}}},
+	}
 }
+
 var c09GoType = map[string]string{"Cat": "Cat", "Dog": "Dog", "guard-dog": "GuardDog", "bird_2": "Bird2", "BigCat": "BigCat"}
 
 type c09Union struct {
@@ -318,7 +326,7 @@ func (u c09Union) Schema() J {
 	}
 	s := J{u.Keyword: members}
 	if u.Disc != "" {
-		d := J{"propertyName": "kind"}
+		d := J{"propertyName": c09DP}
 		if len(u.Explicit) > 0 {
 			mp := J{}
 			for _, e := range u.Explicit {
@@ -332,7 +340,7 @@ func (u c09Union) Schema() J {
 	case "meta":
 		s["properties"] = J{"meta": J{"type": "string"}}
 	case "kind":
-		s["properties"] = J{"kind": J{"type": "string"}}
+		s["properties"] = J{c09DP: J{"type": "string"}}
 	}
 	if u.Fixed != "" {
 		s["type"] = "object"
@@ -403,12 +411,14 @@ func runC09(ctx *Ctx) error {
 	type dc struct {
 		unions []c09Union
 		p      *RunPkg
+		dp     string
 	}
 	var docs []dc
 	for d := 0; d < nd; d++ {
 		r := ctx.Rng.Fork()
+		c09DP = []string{"kind", "pet_type"}[d%2]
 		schemas := J{}
-		for k, v := range c09Objects {
+		for k, v := range c09Objects() {
 			schemas[k] = copyJ(v)
 		}
 		var us []c09Union
@@ -425,10 +435,11 @@ func runC09(ctx *Ctx) error {
 		cfg.Generate.Models = true
 		cfg.OutputOptions.SkipPrune = true
 		p := kit.Add(&RunPkg{Name: fmt.Sprintf("c09_%d", d), Doc: doc, Cfg: cfg})
-		docs = append(docs, dc{us, p})
+		docs = append(docs, dc{us, p, c09DP})
 	}
 	kit.Prepare()
 	for _, d := range docs {
+		c09DP = d.dp
 		replayDoc := J{"doc": d.p.Doc}
 		if d.p.GenErr != nil {
 			ctx.Res.Violate("generate-error:"+errorClass(d.p.GenErr.Error()), "generation fails: "+firstLine(d.p.GenErr.Error()), replayDoc)
@@ -520,8 +531,8 @@ func runC09(ctx *Ctx) error {
 					continue
 				}
 				if o, isObj := v.(map[string]interface{}); isObj {
-					if _, has := o["kind"]; has {
-						o["kind"] = "caller-value"
+					if _, has := o[c09DP]; has {
+						o[c09DP] = "caller-value"
 					}
 				}
 				samples[sfx] = v
@@ -531,7 +542,7 @@ func runC09(ctx *Ctx) error {
 				if o, isObj := v.(map[string]interface{}); isObj && u.Disc != "" {
 					ks := keysOf[info.Members[sfx]]
 					if len(ks) > 0 {
-						o["kind"] = ks[len(ks)-1]
+						o[c09DP] = ks[len(ks)-1]
 					}
 				}
 				return v
@@ -624,9 +635,13 @@ func runC09(ctx *Ctx) error {
 			// a union with fixed and additional properties: after decoding, the fixed member is not among the additional
 			// ones and the extra member is
 			if u.Addl && u.Fixed != "" {
-				o := map[string]interface{}{u.Fixed: "m", "extra_key": "e"}
+				fixedProp := u.Fixed
+				if fixedProp == "kind" { // the fixed member named like the discriminator
+					fixedProp = c09DP
+				}
+				o := map[string]interface{}{fixedProp: "m", "extra_key": "e"}
 				resp, err := d.p.Call(J{"do": "methods", "type": u.Name, "data": jsonOf(o), "steps": []J{
-					{"m": "Get", "args": []json.RawMessage{raw(u.Fixed)}}, {"m": "Get", "args": []json.RawMessage{raw("extra_key")}}}})
+					{"m": "Get", "args": []json.RawMessage{raw(fixedProp)}}, {"m": "Get", "args": []json.RawMessage{raw("extra_key")}}}})
 				if err != nil {
 					return err
 				}
@@ -645,7 +660,7 @@ func runC09(ctx *Ctx) error {
 					return f
 				}
 				if found(0) != "false" || found(1) != "true" {
-					ctx.Res.Violate("additional-vs-fixed:"+sig, fmt.Sprintf("after decoding %s: Get(%q) found=%s (a declared member is no additional one), Get(\"extra_key\") found=%s", jsonOf(o), u.Fixed, found(0), found(1)), replay)
+					ctx.Res.Violate("additional-vs-fixed:"+sig, fmt.Sprintf("after decoding %s: Get(%q) found=%s (a declared member is no additional one), Get(\"extra_key\") found=%s", jsonOf(o), fixedProp, found(0), found(1)), replay)
 				}
 			}
 			// dispatch for every mapped value, lossless decode/encode with fixed and additional properties
@@ -657,7 +672,7 @@ func runC09(ctx *Ctx) error {
 						continue
 					}
 					o := v.(map[string]interface{})
-					o["kind"] = k
+					o[c09DP] = k
 					if u.Fixed == "meta" {
 						o["meta"] = "m"
 					}
@@ -686,7 +701,7 @@ func runC09(ctx *Ctx) error {
 						ctx.Res.Violate("lossless:"+sig, fmt.Sprintf("%s decoded and encoded again is %s", jsonOf(o), out), replay)
 					}
 				}
-				resp, err := d.p.Call(J{"do": "methods", "type": u.Name, "data": `{"kind":"no-such-value"}`, "steps": []J{{"m": "ValueByDiscriminator", "args": []json.RawMessage{}}}})
+				resp, err := d.p.Call(J{"do": "methods", "type": u.Name, "data": jsonOf(J{c09DP: "no-such-value"}), "steps": []J{{"m": "ValueByDiscriminator", "args": []json.RawMessage{}}}})
 				if err != nil {
 					return err
 				}
@@ -726,7 +741,7 @@ func runC09(ctx *Ctx) error {
 			}
 		}
 		// nested: property, array, map, inline union in a property
-		cat := J{"kind": "x", "name": "n"}
+		cat := J{c09DP: "x", "name": "n"}
 		holder := J{"inline": cat}
 		for i, key := range []string{"one", "many", "byName"} {
 			u := d.unions[i]
@@ -741,7 +756,7 @@ func runC09(ctx *Ctx) error {
 			}
 			o := v.(map[string]interface{})
 			if u.Disc != "" {
-				o["kind"] = k0
+				o[c09DP] = k0
 			}
 			switch key {
 			case "one":
